@@ -510,8 +510,20 @@ func executeInBubble(spec *RunSpec, res *RunResult) {
 			pr := &progs[i]
 			var err error
 			if spec.PerStmt && i == len(files)-1 {
+				// Every call gets a context of its own, cancelled once the call
+				// has returned (the usual "defer cancel()") - unless the
+				// program starts jobs or process substitutions, which inherit
+				// the context of the call that started them and would be
+				// stopped with it (that is the caller's doing, not a
+				// difference between the two ways of running a file).
+				ownCtx := !strings.Contains(spec.Programs[i], "&") && !strings.Contains(spec.Programs[i], "<(") && !strings.Contains(spec.Programs[i], ">(")
 				for _, st := range f.Stmts {
-					err = runner.Run(ctxs[i], st)
+					sctx, scancel := ctxs[i], context.CancelFunc(func() {})
+					if ownCtx {
+						sctx, scancel = context.WithCancel(ctxs[i])
+					}
+					err = runner.Run(sctx, st)
+					scancel()
 					if runner.Exited() || ctxs[i].Err() != nil {
 						break
 					}
